@@ -433,9 +433,8 @@ def list_method(ex, l, name, args, kw, st):
     if name == 'append':
         st.lists[l.lid] = items + (('el', args[0]),)
         st.ghost['__ver__%d' % l.lid] = st.ghost.get('__ver__%d' % l.lid, 0) + 1
-        h = getattr(ex, 'on_list_append', None)
-        if h:
-            h(l, args[0], st)
+        if hasattr(ex, 'is_tokens_list') and ex.is_tokens_list(st, l):
+            ex.site('insert', st, elem=args[0])
         return [(st, None)]
     if name == 'pop' and not args:
         if items and items[-1][0] == 'el':
